@@ -313,6 +313,8 @@ def verifyChecksum (l : Layer) : Res Verification := do
   let existing := l.checksum
   let verification ← computeChecksum l.pseudo bytes
   let correct := Gp.Cksum.fold ((verification + Gp.Cksum.W32 - existing % Gp.Cksum.W32) % Gp.Cksum.W32)
+  -- RFC 768: a computed zero is transmitted as all ones (fix cksum-1 in udp.go)
+  let correct := if correct = 0 then 0xffff else correct
   pure { valid := existing = 0 || correct = existing, correct := correct, actual := existing }
 
 end Gp.Udp
